@@ -17,6 +17,7 @@ type scope struct {
 	oldHeap   map[string]Term
 	oldWorlds []WorldState
 	inOld     bool
+	inQuant   bool // evaluating under a quantifier (bound variables in scope)
 	world     int // world index "W" refers to
 	nq        int
 	pkg       *ssa.Package // package whose constants / variables are in scope (callee contracts)
@@ -31,7 +32,7 @@ func (s *scope) addVars(m map[string]Val) {
 }
 
 func (s *scope) child() *scope {
-	n := &scope{vars: map[string]Val{}, extra: s.extra, oldHeap: s.oldHeap, oldWorlds: s.oldWorlds, inOld: s.inOld, world: s.world, nq: s.nq, pkg: s.pkg}
+	n := &scope{vars: map[string]Val{}, extra: s.extra, oldHeap: s.oldHeap, oldWorlds: s.oldWorlds, inOld: s.inOld, inQuant: s.inQuant, world: s.world, nq: s.nq, pkg: s.pkg}
 	for k, v := range s.vars {
 		n.vars[k] = v
 	}
@@ -259,6 +260,10 @@ func (x *Exec) evalSpec(st *State, fr *Frame, e Expr, sc *scope) (Val, error) {
 			return Val{}, err
 		}
 		c := sc.child()
+		if st != nil && !sc.inQuant && v.T.Sort != "" && v.T.Sort != SUnit {
+			// name the value once (keeps if-then-else terms out of quantifier triggers)
+			v.T = x.define(st, "let."+e.Var, v.T)
+		}
 		c.vars[e.Var] = v
 		return x.evalSpec(st, fr, e.Body, c)
 	case EIte:
@@ -280,6 +285,7 @@ func (x *Exec) evalSpec(st *State, fr *Frame, e Expr, sc *scope) (Val, error) {
 		// a chain of same-kind quantifiers becomes one quantifier with a multi-pattern made of the
 		// array reads that mention the bound variables (keeps E-matching cheap and predictable)
 		c := sc.child()
+		c.inQuant = true
 		var names, sorts []string
 		cur := Expr(e)
 		for {
